@@ -260,3 +260,45 @@ Section DanglingThms.
     intros H. apply dangling_struct in H as (_ & _ & I & _). apply transport_compat. now apply inj_map_ft_first.
   Qed.
 End DanglingThms.
+
+(* ------------------------------------------------------------------ the output node is useful *)
+Lemma upd_nat_keeps_true (l : list bool) : forall i l' k,
+  upd_nat l i true = Ok l' -> nth k l false = true -> nth k l' false = true.
+Proof.
+  induction l as [|x l IH]; intros [|i] l' k H E; cbn in H; try discriminate.
+  - injection H as <-. destruct k; auto.
+  - apply bind_ok in H as (r & Er & H). injection H as <-. destruct k; cbn in *; auto. eapply IH; eauto.
+Qed.
+
+Lemma mark_deps_keeps_true deps : forall (u : list bool) k,
+  nth k u false = true ->
+  nth k (fold_left (fun u d => match upd u d true with Ok u' => u' | _ => u end) deps u) false = true.
+Proof.
+  induction deps as [|d deps IH]; intros u k E; cbn [fold_left]; auto.
+  apply IH. destruct (upd u d true) as [u'| | |] eqn:U; auto.
+  unfold upd in U. destruct (d <? 0); [discriminate|]. eapply upd_nat_keeps_true; eauto.
+Qed.
+
+Lemma useful_set_output nodes outp :
+  0 <= outp < Z.of_nat (length nodes) -> nth (Z.to_nat outp) (useful_set nodes outp) false = true.
+Proof.
+  intros R. unfold useful_set.
+  set (init := map (fun i => Z.of_nat i =? outp) (seq 0 (length nodes))).
+  assert (E0 : nth (Z.to_nat outp) init false = true).
+  { unfold init. apply nth_error_nth. rewrite nth_error_map.
+    rewrite (nth_error_nth' _ O) by (rewrite seq_length; lia). rewrite seq_nth by lia. cbn. f_equal. lia. }
+  generalize (rev (combine (seq 0 (length nodes)) nodes)). intros l. revert E0. generalize init.
+  induction l as [|[i nd] l IH]; intros u E; cbn [fold_left]; auto.
+  apply IH. destruct (nth i u false); auto. now apply mark_deps_keeps_true.
+Qed.
+
+Theorem dangling_output_kept nodes outp p :
+  opt_dangling nodes (Some outp) = Ok p -> 0 <= outp < Z.of_nat (length nodes) ->
+  exists j, po_output p = Some j /\ nth_error (po_map p) (Z.to_nat outp) = Some (Some j).
+Proof.
+  rewrite opt_dangling_unfold. intros H R. apply bind_ok in H as ([[[out m] o] i] & E & H). injection H as <-.
+  cbn [po_map po_output]. apply dang_struct_inv in E as (I1 & I2 & I3 & I4 & I5 & I6 & I7 & I8).
+  destruct (I8 (Z.to_nat outp)) as (j & Ej); [lia|now apply useful_set_output|].
+  exists j. split; auto. rewrite I7, Ej.
+  replace ((0 <=? outp) && (outp <? Z.of_nat (length nodes))) with true by lia. reflexivity.
+Qed.
